@@ -64,7 +64,7 @@ def make_overlay(pid, spec, tmp):
             for hf in files:
                 shutil.copy(os.path.join(V, 'harness', hf), hdir)
                 mod = 'k_' + hf[:-3]
-                vis = 'pub(crate) ' if hf in ('kcommon.rs', 'kdt.rs') else ''
+                vis = 'pub(crate) ' if hf in ('kcommon.rs', 'kdt.rs', 'kcfb.rs') else ''
                 f.write('#[cfg(kani)] #[path = "%s"] %smod %s;\n' % (os.path.join(hdir, hf), vis, mod))
     # declared textual substitutions (I/O source stubs), must match exactly n sites
     for sub in spec.get('substitutions', []):
@@ -187,7 +187,7 @@ def run_harness(h, cfg, wdir):
     if props is None:
         res['reason'] = res['reason'] or 'no result block (exit %s)' % p.returncode
         return res
-    failed, unwind_fail, unsupported = [], [], []
+    failed, unwind_fail, unsupported, errors = [], [], [], []
     for pr in props:
         pname = pr['property']
         parts = pname.rsplit('.', 2)
@@ -207,7 +207,9 @@ def run_harness(h, cfg, wdir):
         loc = pr.get('sourceLocation', {})
         desc = re.sub(r'^\[KANI_CHECK_ID_[^\]]*\]\s*', '', pr.get('description', ''))
         item = dict(function=func, cls=cls, desc=desc, file=loc.get('file', ''), line=int(loc.get('line', 0) or 0), status=st)
-        if cls == 'unwind':
+        if st != 'FAILURE':
+            errors.append(item)
+        elif cls == 'unwind':
             unwind_fail.append(item)
         elif cls == 'unsupported_construct':
             unsupported.append(item)
@@ -216,7 +218,9 @@ def run_harness(h, cfg, wdir):
     res['failed'] = failed
     res['unwind_fail'] = unwind_fail
     res['unsupported'] = unsupported
-    if unwind_fail:
+    if errors:
+        res['reason'] = 'solver returned status %s for %d properties (resource exhaustion inside the SAT back end?)' % (errors[0]['status'], len(errors))
+    elif unwind_fail:
         res['reason'] = 'unwinding assertion failed: %s line %s (bound too small)' % (unwind_fail[0]['function'], unwind_fail[0]['line'])
     elif unsupported:
         res['reason'] = 'unsupported construct reachable: %s' % unsupported[0]['desc'][:200]
